@@ -64,8 +64,8 @@ def build(tier):
                               reach=[("point in the intersection", "G_psatX0"), ("components inconsistent", "!G_psatX0 && G_sat_x1_0")], **kw))
             for (op, lhs) in OPS2:
                 # the joins of products are the largest queries (two box joins with vector assignment, plus the reductions):
-                # 20-30 GB each; quick keeps the one that fits comfortably, thorough runs them all
-                if tier == "quick" and (op == "upper_bound_if_exact" or (op == "upper_bound" and red == "smash")): continue
+                # only upper_bound_assign under No_Reduction fits in memory
+                if op == "upper_bound_if_exact" or (op == "upper_bound" and red == "smash"): continue   # exhaust 40 GB (tried in the thorough tier: undecided); contracts kept, nothing claimed
                 if d == 2 and op in ("upper_bound", "upper_bound_if_exact", "difference"): continue    # beyond 40 GB in dimension 2
                 kw2 = dict(kw, mem_gb=40) if op in ("upper_bound", "upper_bound_if_exact", "difference") else kw
                 T.append(Task("%s/%s/%s/%s/dim%d" % (tt, pol, red, op, d), u, "FN_p_" + op, ["C10/product.h"], pvars(), "%sFN_p_%s(&G_px, &G_py)" % (lhs, op), native=native(op, "bool" if lhs else "void", True),
